@@ -139,7 +139,9 @@ def run_tlc(module: str, cfg: Path, *, workers: int | str = "auto", timeout: int
     elif p.returncode == 0 and finished:
         res.ok = True
     else:
-        raise TLCError(f"TLC failed on {module} (exit {p.returncode}):\n{out[-4000:]}\n{p.stderr[-2000:]}")
+        i = out.find("Error:")
+        head = out[i:i + 1500] if i >= 0 else ""
+        raise TLCError(f"TLC failed on {module} (exit {p.returncode}):\n{head}\n...\n{out[-2500:]}\n{p.stderr[-2000:]}")
     return res
 
 
